@@ -8,7 +8,7 @@ SimInit == Init /\ hist = <<>>
 \* it is left to the recorded traces (code -> spec); behaviours do not contain it
 Step == /\ Len(hist) < Depth
         /\ Next
-        /\ last'.op # "RemoveLocal"
+        /\ last'.op \notin {"RemoveLocal", "RemoveRemoteStale"}
         /\ hist' = Append(hist, last')
 Finish == /\ Len(hist) = Depth \/ (fresh > MaxTok /\ Len(hist) > 5)
           /\ Len(hist) = 0 \/ hist[Len(hist)].op # "End"
